@@ -67,6 +67,7 @@ type SnipCase struct {
 	Cons    *ACons     `json:"cons"`
 	Prefill bool       `json:"prefill"`
 	Labels  int        `json:"labels"`
+	DK      int        `json:"dk"` // how many of the labels (the first dk) are dependency keys
 	Body    *ASnipBody `json:"body"`
 }
 
@@ -239,10 +240,15 @@ func cmdSnip(fs *flag.FlagSet) {
 			ev["obs"] = obs
 		} else {
 			ev["labels"] = c.Labels
+			ev["dk"] = c.DK
 			ev["body"] = c.Body
 			blk := &schema.BlockSchema{Body: &schema.BodySchema{}, DependentBody: map[schema.SchemaKey]*schema.BodySchema{}}
 			for j := 0; j < c.Labels; j++ {
-				blk.Labels = append(blk.Labels, &schema.LabelSchema{Name: fmt.Sprintf("l%d", j), IsDepKey: j == 0, Completable: j == 0})
+				dk := c.DK
+				if dk == 0 {
+					dk = 1
+				}
+				blk.Labels = append(blk.Labels, &schema.LabelSchema{Name: fmt.Sprintf("l%d", j), IsDepKey: j < dk, Completable: j == 0})
 			}
 			dep := buildSnipBody(c.Body)
 			if dep == nil {
